@@ -85,6 +85,17 @@ class FuncRef:
     return 'FuncRef(%s:%s)' % (self.module.relpath, self.qualname)
 
 
+class Closure:
+  """A function defined inside the function under verification (`def keep(x): ...`): called by executing its
+  body in place with the enclosing variables as they are at the call (it may read, not rebind, them)."""
+
+  def __init__(self, fdef):
+    self.fdef = fdef
+
+  def __repr__(self):
+    return 'Closure(%s)' % self.fdef.name
+
+
 class ModuleRef:
   def __init__(self, module=None, dotted=None):
     self.module = module
